@@ -67,7 +67,7 @@ def cases() -> Any:
         # what a failing attempt raises: ordinary exceptions, a BaseException, and errors of taskiq's own client API
         # (a task waiting for a sub-task, kicking while the broker is down, rejecting) - all of them are failures
         subclass=st.sampled_from([False, False, True]),
-        fail_kind=st.sampled_from(["ValueError", "ValueError", "KeyError", "MyBase", "CancelledError", "SystemExit", "TaskiqResultTimeoutError", "SendTaskError", "TaskRejectedError", "ResultGetError"]),
+        fail_kind=st.sampled_from(["ValueError", "ValueError", "KeyError", "MyBase", "CancelledError", "SystemExit", "EmptyBatchError", "TaskiqResultTimeoutError", "SendTaskError", "TaskRejectedError", "ResultGetError"]),
         # a second call of the same task handled by the same middleware instance (own labels, own outcome sequence)
         second=st.one_of(st.none(), st.none(), st.fixed_dictionaries(dict(
             outs=st.one_of(prefix, free),
@@ -113,6 +113,10 @@ def make_failure(kind: str) -> BaseException:
         return asyncio.CancelledError()       # what awaiting a cancelled inner future raises; the execution itself is not cancelled
     if kind == "SystemExit":
         return SystemExit(3)
+    if kind == "EmptyBatchError":
+        from vt.harness.worker import EmptyBatchError
+
+        return EmptyBatchError()      # a falsy exception instance (len() == 0)
     if hasattr(te, kind):
         return getattr(te, kind)()
     return {"ValueError": ValueError, "KeyError": KeyError}[kind]("f")
